@@ -20,8 +20,9 @@ MUTANTS = [
     ('no-drain-first', 'dulprovider.py', 'if self.raw_pdu and self._process_incoming():',
      'if False and self._process_incoming():', ['C03']),
     ('recv-overwrites', 'dulprovider.py', 'self.raw_pdu += data', 'self.raw_pdu = data', ['C03']),
-    ('header-lt-6', 'dulprovider.py', 'if len(self.raw_pdu) < 6:', 'if len(self.raw_pdu) < 7:',
-     ['C03']),
+    # ('header-lt-6' is listed further down for C05: a 6-byte PDU that is only framed once a
+    # seventh byte has arrived gives the same result under every segmentation, so the
+    # differential C03 cannot see it - DESIGN 13.2)
     ('eof-no-evt17', 'dulprovider.py',
      "        if not data:\n            # Remote port has been closed\n            self.event.append(fsm.Events.EVT_17)",
      "        if not data:\n            # Remote port has been closed\n            pass", ['C05', 'C13']),
@@ -59,12 +60,12 @@ MUTANTS = [
      ['C05']),
     ('chunks-le', 'dimsemessages.py', '(pos + size < length)', '(pos + size <= length)', ['C06']),
     ('maxsize-minus5', 'dimsemessages.py',
-     '    maxsize = max_pdu_length - 6\n    for chunk, has_next in chunks(data_set, maxsize):',
-     '    maxsize = max_pdu_length - 5\n    for chunk, has_next in chunks(data_set, maxsize):',
+     '    maxsize = (max_pdu_length or UNLIMITED_PDU_LENGTH) - 6\n    for chunk, has_next in chunks(data_set, maxsize):',
+     '    maxsize = (max_pdu_length or UNLIMITED_PDU_LENGTH) - 5\n    for chunk, has_next in chunks(data_set, maxsize):',
      ['C06', 'C10']),
     ('file-maxsize-minus5', 'dimsemessages.py',
-     '    maxsize = max_pdu_length - 6\n    while True:',
-     '    maxsize = max_pdu_length - 5\n    while True:', ['C06']),
+     '    maxsize = (max_pdu_length or UNLIMITED_PDU_LENGTH) - 6\n    while True:',
+     '    maxsize = (max_pdu_length or UNLIMITED_PDU_LENGTH) - 5\n    while True:', ['C06']),
     ('cmd-data-flags-swapped', 'dimsemessages.py',
      'for item, bit in fragment(encoded_command_set, max_pdu_length, 1, 3):',
      'for item, bit in fragment(encoded_command_set, max_pdu_length, 0, 2):', ['C06']),
